@@ -165,6 +165,9 @@ def execute(root, req):
         return None
     if op == 'unpar':
         return f.unpar(**req['kw'])
+    if op == 'delslice':
+        del getattr(f, field)[req['start']:req['stop']]
+        return None
     if op == 'cut':
         return f.cut(**opts)
     if op == 'get_slice':
@@ -390,9 +393,26 @@ def _vslice_req(rng, nodes):
     i, f, vf = rng.choice(virt if virt and rng.random() < 0.75 else cands)
     under = [x for x in vf if x.startswith('_')]
     fld = rng.choice(under) if under and rng.random() < 0.8 else rng.choice(vf)
+    if rng.random() < 0.2:
+        return rng.choice(_slice_delete_reqs(i, f, fld, 'vslice'))
     pool = _vpool(f.a, fld)
     src = rng.choice(pool) if rng.random() < 0.85 else rng.choice(GENERIC_SLICE)
     return _slice_req(rng, i, f, fld, src, 'vslice')
+
+
+def _slice_delete_reqs(i, f, fld, errkind='slice-delete'):
+    """deletes of sub-ranges of a slice field, the whole range included, through every entry point that can delete"""
+    n = _flen(f, fld)
+    ranges = sorted(set([(0, n), (0, 'end'), (0, 1), (max(n - 1, 0), n), (1, n), (0, max(n - 1, 0))]), key=str)
+    out = []
+    for a, b in ranges:
+        base = {'errkind': errkind, 'node': i, 'field': fld}
+        out.append({**base, 'op': 'put_slice', 'start': a, 'stop': b, 'code': {'k': 'none'}, 'one': False})
+        out.append({**base, 'op': 'get_slice', 'start': a, 'stop': b})
+        out.append({**base, 'op': 'put', 'idx': a, 'stop': b, 'code': {'k': 'none'}, 'one': False})
+        if b != 'end':
+            out.append({**base, 'op': 'delslice', 'start': a, 'stop': b})
+    return out
 
 
 PUT_SRC_TEXT = ['(', ')', 'in', 'def', ':', '"', '1 +', '$', ' = = ', '[', 'lambda', '\\', 'x y', ',,', 'if', '\n  indented', '*',
@@ -480,6 +500,21 @@ VALID_POOLS = {
     'stmt': ['c12v = 1', 'pass', 'if a: b', 'return', 'del q', 'x: int = 1', 'import os', 'def f(): pass', 'a; b', 'raise', 'break'],
     'pattern': ['c12v', '1', '[a, b]', '{1: x}', 'C()', '_', 'a | b', '*r', 'a.b', '-1', '"s"', 'None', 'C(a, b=c)'],
 }
+VALID_POOLS.update({
+    'alias': ['*', 'c12v', 'a.b', 'a as b', 'a.b as c', 'a.b.c'],
+    'arg': ['c12a', 'a: int', 'a: (yield)', 'a: *b'],
+    'keyword': ['c12k=1', '**c12d', 'k=(yield)', 'k=*a'],
+    'withitem': ['c12v', 'a as b', '(a, b) as c', 'a as (b, c)', 'a as b.c', '(a as b)'],
+    'comprehension': ['for c12v in c12w', 'async for a in b', 'for a in b if c if d', 'for a, b in c'],
+    'ExceptHandler': ['except: pass', 'except c12v: pass', 'except E as e: pass', 'except* E: pass', 'except* (A, B) as e: pass', 'except (A, B): pass'],
+    'match_case': ['case c12v: pass', 'case _: pass', 'case [a, *b] if c: pass', 'case {1: x, **r}: pass'],
+    'arguments': ARGS_POOL,
+    'TypeVar': ['c12v', 'T: int', '*Ts', '**P'], 'TypeVarTuple': ['c12v', 'T: int', '*Ts', '**P'], 'ParamSpec': ['c12v', 'T: int', '*Ts', '**P'],
+    'Starred': ['*c12s', 'c12v', '*(a, b)', '*a or b'], 'Slice': ['a:b', ':', 'a:b:c', 'c12v', '::'],
+})
+SMALL_CATEGORIES = ('alias', 'arg', 'keyword', 'withitem', 'comprehension', 'ExceptHandler', 'match_case', 'arguments', 'TypeVar',
+                    'TypeVarTuple', 'ParamSpec', 'pattern', 'Starred', 'Slice')
+
 RAW_CODES = ['1  # ', '"s"  # x', 'None #', 'c12v #', '1', "'s'", 'b"x"', '...', 'a.b', '(c12v', 'c12v)', '[', 'lambda:', 'x if',
              '1 if 2 else', 'not', '-', 'c12v  \\', '# only comment', 'c12v', '1.5', 'True', '(1, 2)', '[a]', 'a or b', 'x = 1', 'pass',
              'global g', '*s', '**k', 'k=1', 'f(', "f'", 'a, b', 'await x', '1 #\n', '2  # ) ]', "'''"]
@@ -711,6 +746,17 @@ def systematic(rng, root, nodes, cap):
                     if pos < n:
                         reqs.append({'errkind': 'vslice', 'op': 'put', 'node': i, 'field': fld, 'idx': pos, 'code': {'k': 'src', 'v': src}})
     first = []
+    for i, f in enumerate(nodes):
+        for fld in _virtual_fields(f.a):
+            first.extend(_slice_delete_reqs(i, f, fld))
+        if f.parent is not None and category(f.a) in SMALL_CATEGORIES:
+            # every shape of the node's own category (star alias, `as` forms, ** keyword, except* ...), through the node
+            # and through the parent
+            pi_ = next(k for k, g in enumerate(nodes) if g is f.parent)
+            for src in _valid_pool(f.a):
+                first.append({'errkind': 'valid-any', 'op': 'replace', 'node': i, 'code': {'k': 'src', 'v': src}})
+                first.append({'errkind': 'valid-any', 'op': 'put', 'node': pi_, 'field': f.pfield.name, 'idx': f.pfield.idx,
+                              'code': {'k': 'src', 'v': src}})
     for i, f in enumerate(nodes):
         oc = _op_category(f.a)
         p = f.parent
